@@ -418,7 +418,7 @@ def check(run, prog, tier):
 
     # ---- C15-c
     import inline as _inl
-    cvp = _inl.inlined(byname["check_valid_path"][0], 2, 40)
+    cvp = _inl.inlined(byname["check_valid_path"][0], 2, 40, True)
     run.saw(cvp)
     a = StatAwareAnalysis(cvp, {}, protos).run()
     APPLIES = ("apply_master_ob", "safe_apply_master_ob", "apply", "safe_apply")
